@@ -706,7 +706,7 @@ def mon_handler_builds(shape, pr, bypass, host):
                 gate = asked[-len(ts):]
                 out.append(('C06 merged although the build of %s was not SUCCESSFUL'
                             % ('the source tip' if k == 0 else 'an integration tip'),
-                            z3.Or(bypass, repo.status_of(gate[k].idx) == ok)))
+                            z3.Or(bypass, repo.status_term(gate[k].idx) == ok)))
                 if k >= 1:
                     out.append(('C06 the integration commit that was built does not contain its '
                                 'destination (stale build)',
@@ -719,7 +719,7 @@ def mon_handler_builds(shape, pr, bypass, host):
                 if r in repo.remote:
                     out.append(('C06 queued although the build of %s is not SUCCESSFUL'
                                 % ('the source tip' if k == 0 else 'an integration tip'),
-                                z3.Or(bypass, repo.status_of(repo.remote[r]) == ok)))
+                                z3.Or(bypass, repo.status_term(repo.remote[r]) == ok)))
         return out
     return mon
 
